@@ -91,25 +91,22 @@ func ruleRestoreGuard(r *Report) {
 		return isEx && calleeIs(&cl.Call, "(*column.Collection).readState")
 	}
 	ok := edgeGuarded(reps[0].Block(), func(c ssa.Value) (bool, bool) {
-		bo, isB := c.(*ssa.BinOp)
-		if !isB {
+		// c ≡ (x < y) xor neg
+		x, y, neg, isCmp := lessThan(c)
+		if !isCmp {
 			return false, false
 		}
 		switch {
-		case (bo.Op == token.GTR || bo.Op == token.GEQ) && isID(bo.X) && isStored(bo.Y):
-			return true, true
-		case (bo.Op == token.LSS || bo.Op == token.LEQ) && isStored(bo.X) && isID(bo.Y):
-			return true, true
-		case (bo.Op == token.LSS) && isID(bo.X) && isStored(bo.Y):
-			return true, false
-		case (bo.Op == token.GTR) && isStored(bo.X) && isID(bo.Y):
-			return true, false
+		case isStored(x) && isID(y): // stored < id (or its negation id <= stored): replay where it holds
+			return true, !neg
+		case isID(x) && isStored(y): // id < stored (or its negation id >= stored): replay where it does not hold
+			return true, neg
 		}
 		return false, false
 	})
 	// the commit replayed is the one tested
 	rc, _, _ := callCommon(reps[0])
-	same := false
+	same := sameExpr(rc.Args[1], cb.Params[0])
 	if ld, isLd := rc.Args[1].(*ssa.UnOp); isLd {
 		if al, isAl := ld.X.(*ssa.Alloc); isAl {
 			for _, ref := range *al.Referrers() {
@@ -118,9 +115,6 @@ func ruleRestoreGuard(r *Report) {
 				}
 			}
 		}
-	}
-	if rc.Args[1] == ssa.Value(cb.Params[0]) {
-		same = true
 	}
 	h.Check(ok && same, "(*column.Collection).Restore/guard", r.P.InstrPos(reps[0]), "Replay(commit) ⇐ commit.ID ≥/> stored[commit.Chunk]", "the replay of a logged commit is not guarded by a comparison of its id with the id stored for its own block that excludes older commits: commits already contained in the block state are applied twice, or newer ones are skipped")
 	// state first, error stops
@@ -186,18 +180,92 @@ func ruleReadChunk(r *Report) {
 	ws := r.Anchor("(*column.Collection).writeState")
 	if ws != nil {
 		ok := false
-		withClosures(ws, func(f *ssa.Function) {
-			if len(f.Params) == 3 && isNamed(f.Params[1].Type(), CommitPath, "Chunk") {
-				for _, c := range callsTo(f, false, "(*iostream.Writer).WriteUvarint") {
-					cc, _, _ := callCommon(c)
-					if sameExpr(cc.Args[1], f.Params[0]) {
+		for _, g := range deepFuncs(ws) {
+			for _, rc := range callsTo(g, false, "(*column.Collection).readChunk") {
+				rcc, _, _ := callCommon(rc)
+				f := asFunc(rcc.Args[2])
+				if f == nil || len(f.Params) != 3 {
+					continue
+				}
+				for _, c := range callsToDeep(f, false, "(*iostream.Writer).WriteUvarint") {
+					cc, _, _ := callCommon(c.Inner)
+					if c.same(cc.Args[1], f.Params[0]) {
 						ok = true
 					}
 				}
 			}
-		})
+		}
 		h.Check(ok, "(*column.Collection).writeState/id", r.P.Pos(ws.Pos()), "writes the id read under the latch", "the block's last commit id written to the snapshot is not the one read under the latch")
 	}
+}
+
+// countedLoop: block `in` lies in a loop of fn that runs exactly n times, n accepted by isCount:
+// counting up (i := 0; i < n; i++) or down (k := n; k > 0 / k != 0; k--), in any spelling.
+func countedLoop(fn *ssa.Function, in *ssa.BasicBlock, isCount func(ssa.Value) bool) bool {
+	found := false
+	allInstrs(fn, func(ins ssa.Instruction) {
+		phi, isPhi := ins.(*ssa.Phi)
+		if !isPhi || len(phi.Edges) != 2 || found {
+			return
+		}
+		// the loop of this φ contains `in`
+		if !(reachAvoiding(phi.Block(), in, nil, nil) || phi.Block() == in) || !reachAvoiding(in, phi.Block(), nil, nil) {
+			return
+		}
+		var init ssa.Value
+		step := int64(0)
+		for _, e := range phi.Edges {
+			if bo, isB := e.(*ssa.BinOp); isB && bo.X == ssa.Value(phi) && (bo.Op == token.ADD || bo.Op == token.SUB) {
+				if c, isC := constInt(bo.Y); isC && (c == 1 || c == -1) {
+					step = c
+					if bo.Op == token.SUB {
+						step = -c
+					}
+					continue
+				}
+			}
+			init = e
+		}
+		if init == nil || step == 0 {
+			return
+		}
+		// the exit test of the loop
+		for _, ref := range *phi.Referrers() {
+			bo, isB := ref.(*ssa.BinOp)
+			if !isB {
+				continue
+			}
+			usedAsExit := false
+			for _, r2 := range *bo.Referrers() {
+				if iff, isIf := r2.(*ssa.If); isIf {
+					// one edge stays in the loop, the other leaves it
+					a, b := iff.Block().Succs[0], iff.Block().Succs[1]
+					ra := a == phi.Block() || reachAvoiding(a, phi.Block(), nil, nil)
+					rb := b == phi.Block() || reachAvoiding(b, phi.Block(), nil, nil)
+					if ra != rb {
+						usedAsExit = true
+					}
+				}
+			}
+			if !usedAsExit {
+				continue
+			}
+			if x, y, neg, ok := lessThan(bo); ok && !neg {
+				if zero, isC := constInt(init); step == 1 && isC && zero == 0 && x == ssa.Value(phi) && isCount(y) {
+					found = true // i := 0; i < n; i++
+				}
+				if zero, isC := constInt(x); step == -1 && isC && zero == 0 && y == ssa.Value(phi) && isCount(init) {
+					found = true // k := n; 0 < k; k--
+				}
+			}
+			if bo.Op == token.NEQ && step == -1 && isCount(init) {
+				if zero, isC := constInt(bo.Y); isC && zero == 0 && bo.X == ssa.Value(phi) {
+					found = true // k := n; k != 0; k--
+				}
+			}
+		}
+	})
+	return found
 }
 
 // ---------------------------------------------------------------------------------------------
@@ -480,14 +548,10 @@ func ruleWholeCommits(r *Report) {
 				})
 			}
 		})
-		// loop bound: i < columns
-		bound := false
-		allInstrs(inner, func(ins ssa.Instruction) {
-			if bo, isB := ins.(*ssa.BinOp); isB && bo.Op == token.LSS {
-				if cl, isEx := extractOf(freeVarValue(norm(bo.Y)), 0); isEx && calleeIs(&cl.Call, "(*iostream.Reader).ReadUvarint") {
-					bound = true
-				}
-			}
+		// the loop around ReadFrom runs exactly `columns` times (the count read from the header)
+		bound := len(rf) == 1 && countedLoop(inner, rf[0].Block(), func(v ssa.Value) bool {
+			cl, isEx := extractOf(norm(v), 0)
+			return isEx && calleeIs(&cl.Call, "(*iostream.Reader).ReadUvarint")
 		})
 		h.Check(ok && nNil == 1 && appOK && bound, "(*column.Collection).readState/block", r.P.Pos(inner.Pos()), "nil only after all `columns` buffers were read", "a block's transaction can commit although not every buffer of the block was read (a truncated block is applied partially)")
 		// goes through Query
@@ -527,6 +591,35 @@ func cellStoresBefore(ret *ssa.Return) []ssa.Value {
 // ---------------------------------------------------------------------------------------------
 // C07.count
 
+// isIndexPredicate: cond is "this registry entry is a bitmap index": a call of column.IsIndex or
+// the type test it stands for (Column.(*columnIndex), comma-ok), written out.
+func isIndexPredicate(cond ssa.Value) bool {
+	if cl, ok := cond.(*ssa.Call); ok {
+		if !calleeIs(&cl.Call, "(*column.column).IsIndex") {
+			return false
+		}
+		body := pureGetter(cl.Call.StaticCallee())
+		if body == nil {
+			return true // not a plain accessor: both sides must then call it (checked by name)
+		}
+		cond = body
+	}
+	ex, ok := cond.(*ssa.Extract)
+	if !ok || ex.Index != 1 {
+		return false
+	}
+	ta, ok := ex.Tuple.(*ssa.TypeAssert)
+	if !ok || !ta.CommaOk {
+		return false
+	}
+	pt, ok := ta.AssertedType.(*types.Pointer)
+	if !ok || !isNamed(pt, ModPath, "columnIndex") {
+		return false
+	}
+	fr, ok := loadedField(ta.X)
+	return ok && fr.Struct == "column.column" && fr.Field == "Column"
+}
+
 func ruleSnapshotCount(r *Report) {
 	h := r.Rule("C07.count", "S", "the number of buffers announced per block equals the number written: the column count and the skip in column.Snapshot use the same predicate (IsIndex), writeState writes one buffer for the insert markers plus one per non-skipped registry entry, readState reads that many per block", 5)
 	cnt := r.Anchor("(*column.columns).Count")
@@ -546,11 +639,7 @@ func ruleSnapshotCount(r *Report) {
 				return
 			}
 			if edgeGuarded(ins.Block(), func(c ssa.Value) (bool, bool) {
-				cl, ok := c.(*ssa.Call)
-				if ok && calleeIs(&cl.Call, "(*column.column).IsIndex") {
-					return true, false
-				}
-				return false, false
+				return isIndexPredicate(c), false
 			}) {
 				incOK = true
 			}
@@ -565,11 +654,7 @@ func ruleSnapshotCount(r *Report) {
 				continue
 			}
 			onIdx := edgeGuarded(ret.Block(), func(cond ssa.Value) (bool, bool) {
-				cl, ok := cond.(*ssa.Call)
-				if ok && calleeIs(&cl.Call, "(*column.column).IsIndex") {
-					return true, true
-				}
-				return false, false
+				return isIndexPredicate(cond), true
 			})
 			if c.Value.String() == "false" && !onIdx {
 				skipOK = false
@@ -651,15 +736,17 @@ func ruleSnapshotCount(r *Report) {
 			}
 		})
 		// per block: exactly one WriteSelf for markers in the chunk closure, and one in the RangeUntil closure guarded by Snapshot()==true
+		// the per-block writer is the function (closure or helper) that ranges over the registry; the
+		// per-column writer is the callback it hands to RangeUntil
 		var chunkFn, colFn *ssa.Function
-		withClosures(ws, func(f *ssa.Function) {
-			if len(f.Params) == 3 && isNamed(f.Params[1].Type(), CommitPath, "Chunk") {
-				chunkFn = f
+		for _, f := range deepFuncs(ws) {
+			for _, c := range callsTo(f, false, "(*column.columns).RangeUntil") {
+				cc, _, _ := callCommon(c)
+				if cf := asFunc(cc.Args[1]); cf != nil {
+					chunkFn, colFn = f, cf
+				}
 			}
-			if len(f.Params) == 1 && isNamed(f.Params[0].Type(), ModPath, "column") && f != ws {
-				colFn = f
-			}
-		})
+		}
 		okW := false
 		if chunkFn != nil && colFn != nil {
 			w1 := callsTo(chunkFn, false, "(*iostream.Writer).WriteSelf")
